@@ -140,6 +140,11 @@ def check(repo, rep):
         if objf:
             rep.unknown('StreamSaverWorker: no list-valued cache field; the blocks seem to be kept in a helper object (%s), whose methods the cache rules do not follow' % objf)
             return
+    if not cachef:
+        # the pending blocks are kept in some other container (a deque, a bytearray that is extended, ...): the cache rules, written
+        # for a list of blocks, do not apply
+        rep.unknown('StreamSaverWorker: no list-valued cache field created in the constructor; how pending blocks are kept was not recognised')
+        return
     rep.ob('the stream saver has one block cache', len(cachef) == 1, W(sc), 'StreamSaverWorker:cache-field', 'candidates %s' % cachef)
     if len(cachef) != 1:
         return
